@@ -71,6 +71,9 @@ async def open_ws_server_transport(spec: str) -> Transport:
                 f'from {connection.remote_address}'
             )
             self.connection = connection
+            # The parser is shared by all connections: the previous client may
+            # have been disconnected in the middle of a packet.
+            self.source.parser.reset()
             # pylint: disable=no-member
             try:
                 async for packet in connection:
